@@ -1083,8 +1083,20 @@ def run_invariants(pid, scenarios, spec, res, per_state=None, per_step=None,
 
             def run(prefix):
                 svc.app.restore(snap)
-                fns = {n: (lambda r=r: svc.client.send(r, record=False))
-                       for n, r in reqs.items()}
+                def do(r):
+                    if r['method'] == 'RESTART':
+                        # a worker process starting up meanwhile: its
+                        # start-up synchronisation on the same database
+                        from pv.client import Resp
+                        try:
+                            svc.app.restart()
+                            return Resp(204, {}, b'')
+                        except Exception as exc:      # noqa
+                            return Resp(500, {}, repr(exc).encode(),
+                                        escaped=(type(exc).__name__,
+                                                 'start-up'))
+                    return svc.client.send(r, record=False)
+                fns = {n: (lambda r=r: do(r)) for n, r in reqs.items()}
                 return sc.run(fns, prefix)
             for prefix, result, fresh in sched.explore(
                     run, max_preemptions=2,
@@ -1253,6 +1265,26 @@ def run_random(pid, spec, res, use_serial=True):
         svc.close()
 
 
+def _setup_missing_standard_trait(client):
+    import sqlite3
+    con = sqlite3.connect(client.app.db_path)
+    con.execute("DELETE FROM traits WHERE name = 'HW_CPU_X86_AVX2'")
+    con.commit()
+    con.close()
+    r = client.call('PUT', '/traits/CUSTOM_ZZ')
+    assert r.status == 201, r.status
+
+
+def _setup_missing_standard_class(client):
+    import sqlite3
+    con = sqlite3.connect(client.app.db_path)
+    con.execute("DELETE FROM resource_classes WHERE name = 'FPGA'")
+    con.commit()
+    con.close()
+    r = client.call('PUT', '/resource_classes/CUSTOM_ZZ')
+    assert r.status == 201, r.status
+
+
 def scenarios_names():
     """racing creations / deletions of custom classes and traits (C19)"""
     def put_rc(n, v='1.39'):
@@ -1304,6 +1336,16 @@ def scenarios_names():
             'A': del_trait('CUSTOM_UNUSED'), 'B': del_trait('CUSTOM_UNUSED'),
             'C': put_trait('CUSTOM_UNUSED'),
             'D': put_traits(E, 'cur', ['CUSTOM_UNUSED'])}),
+        # a custom trait (the newest row) deleted twice while another worker
+        # starts up and synchronises a standard trait that is missing
+        ('restart: delete trait | delete same trait | start-up sync', {
+            'A': del_trait('CUSTOM_ZZ'), 'B': del_trait('CUSTOM_ZZ'),
+            'C': lambda d: Req('RESTART', '/', '1.39')},
+         _setup_missing_standard_trait),
+        ('restart: delete rc | delete same rc | start-up sync', {
+            'A': del_rc('CUSTOM_ZZ'), 'B': del_rc('CUSTOM_ZZ'),
+            'C': lambda d: Req('RESTART', '/', '1.39')},
+         _setup_missing_standard_class),
         ('put trait X | put trait X', {'A': put_trait('CUSTOM_TX'),
                                        'B': put_trait('CUSTOM_TX')}),
         ('put trait X | put trait Y', {'A': put_trait('CUSTOM_TX'),
